@@ -36,6 +36,22 @@ add("C11", "Per enumerated time_limit: never later / never earlier obligations o
 add("C12", "Observation returned with S' equals an independent observer of S' for every state/action at the listed sizes.",
     T1 + "observer oracle; replay", "DESIGN.md 3/C12")
 
+T2 = "jaxpr->SMT symbolic execution (z3) of two encodings of the real code on shared symbolic inputs (equivalence queries, cofactored on control predicates), "
+add("C02", "IR-level facts for all inputs (no effects, same jaxpr+constants across instances/histories, arguments untouched) and SMT equivalence of jit/vmap(2,3)/scan(2,3) with per-call execution.",
+    "jaxpr alpha-equivalence + " + T2 + "replay on real code", "DESIGN.md 3/C02")
+add("C13", "AutoResetWrapper.step vs (env.step ; env.reset(split(key)[0])) on one shared symbolic state/action for 22 envs, both flags; fresh-key obligation under an idealised PRNG.",
+    T2 + "per-field in both cofactors of LAST; replay on real code", "DESIGN.md 3/C13")
+add("C14", "VmapWrapper lanes vs unwrapped env; VmapAutoResetWrapper vs VmapWrapper(AutoResetWrapper) for all 2^B termination patterns, batch 1..3; render = lane 0.",
+    T2 + "per-leaf per-pattern queries; replay on real code", "DESIGN.md 3/C14")
+add("C15", "Whole episodes through the real gym/dm_env adapter methods (conversion layer stubbed) vs native API with the documented key schedule on symbolic key/actions; MultiToSingle one symbolic step; converted spaces compared parameter-wise.",
+    T2 + "replay with the unstubbed adapter", "DESIGN.md 3/C15")
+add("C16", "Path-complete symbolic execution of the real spec methods on symbolic bounds/values (engine E2) against the stated characterisation; shipped specs checked concretely.",
+    "path-forking symbolic execution of jumanji.specs on z3-backed arrays + per-path z3 queries; concrete replay of every model", "DESIGN.md 3/C16", engine="pysym")
+add("C18", "z3 string/regex theory over the regex read from the repo for parse/format laws (bounded lengths); exhaustive differential of the glue model; solver-generated id pairs drive the real register/make; 25 shipped ids.",
+    "z3 strings/regex over ENV_NAME_RE (sre_parse -> z3 Re) + solver-generated id classes for the real register/make", "DESIGN.md 3/C18", engine="pysym")
+add("C19", "tree_utils traced to jaxprs with symbolic leaves and symbolic index (batch 1..5); pytrees equality helpers executed path by path on symbolic leaves.",
+    "jaxpr->SMT symbolic execution (z3) with symbolic index + path-forking symbolic execution of testing.pytrees; replay on real code", "DESIGN.md 3/C19")
+
 ALL = [f"C{i:02d}" for i in range(1, 20)]
 PENDING = "check under construction in this round; not claimed yet"
 
